@@ -47,6 +47,8 @@ def callees(q):
                 continue
             # a bare name is a module-level function; an attribute call is a method (itt.chain(...) is not api.chain)
             cands = (f"{mod}.{name}", f"api.{name}") if isinstance(f, _ast.Name) else (f"api.Converter.{name}", f"api.Record.{name}")
+            if isinstance(f, _ast.Name) and (name == "Converter" or (name == "cls" and cls == "Converter")):
+                cands = ("api.Converter.__init__",)      # constructor call: the caller's proof uses the contract of __init__
             for cand in cands:
                 if cand in spec.CONTRACTS and cand != q:
                     out.add(cand)
@@ -410,6 +412,9 @@ def run_selftest(tier, seed):
     loader.load()
     bad = 0
     n = 0
+    # a false statement is expected to stay open: no second, longer attempt on it
+    os.environ["PYVC_NO_RETRY"] = "1"
+    os.environ.setdefault("PYVC_TIMEOUT", "30")
     for name, li in spec.LEMMAS.items():
         if li.opts.get("expect") != "fail":
             continue
@@ -429,11 +434,11 @@ def run_selftest(tier, seed):
         try:
             repo, ctx, eng, pre, cp, npaths = prove.gen_contract_vcs(q)
             from pyvc import smt as _smt
-            open_ = 0
-            for ob in ctx.obligations:
-                r = _smt.solve(prove.query_text(ctx, ob), 10, alts=[("slim", prove.query_text(ctx, ob, slim=True))])
-                open_ += r["result"] != "unsat"
-            ok = open_ > 0
+            from concurrent.futures import ThreadPoolExecutor
+            with ThreadPoolExecutor(int(os.environ.get("PYVC_WORKERS", "4")) * 2) as ex:
+                res = list(ex.map(lambda ob: _smt.solve(prove.query_text(ctx, ob), 10, alts=[("slim", prove.query_text(ctx, ob, slim=True))])["result"],
+                                  ctx.obligations))
+            ok = any(r != "unsat" for r in res)
         except (prove.Demoted, prove.Unsupported):
             ok = True
         print(f"selftest {q}: {'not provable (good)' if ok else 'PROVED A FALSE CONTRACT'}")
